@@ -20,7 +20,7 @@ def _eval(arg):
     except Exception as e:
         out["build_error"] = str(e)[:100]
         return out
-    names = SC.user_factors(d)
+    names = SC.declared_factors(d)          # discrete factors in design order, then the continuous factors the same block declares
     fails = out["fails"]
     exps = []
     for strat in ("IterateSATGen", "RandomGen"):
@@ -118,7 +118,7 @@ def main(tier):
                                                                   "experiments_to_dicts", "save_experiments_csv", "__filter_hidden", "__filter_hidden_keys")])
     run_wp(ck, ["experiments_to_tuples", "experiments_to_dicts"], budget_ms(tier), prefix="C20.wp.")
     raw_helpers(ck, tier)
-    ds = SC.design_space(tier, seed(), random_n=25 if tier == "quick" else 300)
+    ds = SC.design_space(tier, seed(), random_n=25 if tier == "quick" else 300, continuous=True)
     WORK.mkdir(exist_ok=True)
     args = [(d, str(WORK / f"c20-{os.getpid()}-{i}")) for i, d in enumerate(ds)]
     res = runner.pmap(_eval, args, jobs=14, timeout=60)
